@@ -329,6 +329,8 @@ def rule_sb(repo, tier):
                 f = repo.func(OP, op_class(fam, op) + '.' + meth)
                 if meth == 'backward':
                     n = normalised_return(f, _famnorm)
+                    if n is not None:
+                        n = n + '||' + _skeleton(f)
                 else:
                     n = _saved_norm(repo, op_class(fam, op))
                 if n is None:
@@ -350,6 +352,27 @@ def rule_sb(repo, tier):
                                                                                               [x for x in grp if x != fam]),
                                         construct='%s.%s vs siblings' % (op, meth)))
     return res
+
+
+def _skeleton(f):
+    """control skeleton of a function: nesting depth and (family-normalised) test of every branch / loop"""
+    out = []
+
+    def rec(stmts, depth):
+        for st in stmts:
+            if isinstance(st, (ast.If, ast.While)):
+                out.append('%d:%s' % (depth, _famnorm(src(st.test))))
+                rec(st.body, depth + 1)
+                rec(st.orelse, depth + 1)
+            elif isinstance(st, (ast.For, ast.With, ast.Try)):
+                out.append('%d:%s' % (depth, type(st).__name__))
+                rec(getattr(st, 'body', []), depth + 1)
+                rec(getattr(st, 'orelse', []) or [], depth + 1)
+                for h in getattr(st, 'handlers', []) or []:
+                    rec(h.body, depth + 1)
+                rec(getattr(st, 'finalbody', []) or [], depth + 1)
+    rec(f.node.body, 0)
+    return ';'.join(out)
 
 
 def _saved_norm(repo, cname):
